@@ -524,3 +524,12 @@ def edges(tier, seed):
         if child is not None and child.poll() is None:
             child.kill()
         raise
+
+
+
+def consumers(tier, seed):
+    """the derived edge tables and n_nodes_per_face a grid reports are unchanged by operations that only read them (shared with C03:
+    standins.C03.consumers compares every table with a copy taken before differences, gradients, aggregations, integration,
+    subsetting, area / bounds / dual construction)"""
+    from .C03 import consumers as _consumers
+    return _consumers(tier, seed)
